@@ -206,6 +206,7 @@ def run(cfg):
     finder_rule(R, zs)
     abbrev_rule(R, lib, zs)
     start_until_rule(R, lib, zs)
+    pool_rules(R, lib, zs)
     return R
 
 
@@ -422,6 +423,140 @@ def abbrev_rule(R, lib, zs):
                     'while offsets agree (e.g. Europe/Dublin in winter, SAVE -1:00)' % ({-1: 'negative', 0: 'zero', 1: 'positive'}[sg], ptab[sg], ctab[sg]))
     elif ptab != want:
         R.violation('R7', c, pf.loc, 'both sides use the table %r; zic names a transition with any non-zero SAVE by the second half: expected %r' % (ptab, want))
+
+
+class _CxxFuncs:
+    """adapter: the functions of the C++ library under the module interface acv/aeval.py expects."""
+
+    def __init__(self, lib, prefix):
+        from types import SimpleNamespace
+        self.funcs = {}
+        for q in list(lib.funcs):
+            if q.startswith(prefix):
+                fs = lib.fns(q)         # instantiations, not the template pattern
+                if fs:
+                    self.funcs[q] = SimpleNamespace(params=[p for p, _t in fs[0].params], body=fs[0].body, loc=fs[0].loc)
+
+
+def pool_rules(R, lib, zs):
+    """The candidate pool of the C++ TransitionStorage and the Python list of candidates are filled by sibling insertion
+    routines (addFreeAgentToCandidatePool / _add_transition_sorted) and the C++ pool is compacted in place by
+    addActiveCandidatesToActivePool.  Their IR is interpreted (E-SEQ) on every abstract pool of a small family: transition
+    times are ranks out of {0, 1, 2} (so ties occur), the candidate section holds up to four sorted entries, the active and
+    prior sections in front of it up to two.  Insertion: both sides must produce the same order of candidates (ties
+    included), the C++ side must leave the other sections and the array as a permutation of the same objects.  Compaction:
+    the active candidates, in their order, directly behind the active section; all three indexes behind them; the array
+    still a permutation (the pool recycles these objects)."""
+    from .aeval import AEval, AObj, Raised
+    import itertools
+    R.rule('R9', 'candidate-pool insertion agrees between C++ and Python on every small sorted pool; in-place compaction keeps order and objects', floor=300)
+    TS = 'ace_time::extended::TransitionStorage::'
+    cmod = _CxxFuncs(lib, TS)
+    ins = TS + 'addFreeAgentToCandidatePool'
+    comp = TS + 'addActiveCandidatesToActivePool'
+    if ins not in cmod.funcs or comp not in cmod.funcs:
+        raise AnalysisError('anchor vanished: TransitionStorage::addFreeAgentToCandidatePool / addActiveCandidatesToActivePool')
+    size = None
+    for n_, t_, _x in lib.fields('ace_time::extended::TransitionStorage'):
+        if n_ == 'mTransitions' and '[' in (t_ or ''):
+            size = int(t_[t_.index('[') + 1:t_.index(']')])
+    if not size:
+        raise AnalysisError('TransitionStorage::mTransitions: array size not found')
+    cops = {'ace_time::extended::operator<': lambda ev, r, a: a[0] < a[1], 'ace_time::extended::operator>': lambda ev, r, a: a[0] > a[1],
+            'ace_time::extended::operator<=': lambda ev, r, a: a[0] <= a[1], 'ace_time::extended::operator>=': lambda ev, r, a: a[0] >= a[1],
+            'ace_time::extended::operator==': lambda ev, r, a: a[0] == a[1], 'ace_time::logging::printf': lambda ev, r, a: None}
+    pintr = {'_compare_date_tuple': lambda ev, r, a: (a[0] > a[1]) - (a[0] < a[1])}
+
+    def mk_pool(front, cands, agent, prior_slot):
+        objs = []
+        for i in range(size):
+            objs.append(AObj({'transitionTime': 9, 'active': False}, oid='free%d' % i, cls='Transition'))
+        k = 0
+        for j in range(front):
+            objs[k] = AObj({'transitionTime': -1, 'active': True}, oid='act%d' % j, cls='Transition')
+            k += 1
+        ip = k
+        if prior_slot:
+            objs[k] = AObj({'transitionTime': -1, 'active': False}, oid='prior', cls='Transition')
+            k += 1
+        ic = k
+        for j, (t, act) in enumerate(cands):
+            objs[k] = AObj({'transitionTime': t, 'active': act}, oid='c%d' % j, cls='Transition')
+            k += 1
+        if agent is not None:
+            objs[k] = AObj({'transitionTime': agent, 'active': False}, oid='new', cls='Transition')
+        return AObj({'mTransitions': objs, 'mIndexPrior': ip, 'mIndexCandidates': ic, 'mIndexFree': k, 'mHighWater': 0}, oid='pool'), [o.oid for o in objs]
+
+    n = 0
+    first = None
+    nbad = 0
+    loc_c = cmod.funcs[ins].loc
+    pf = zs.fn('_add_transition_sorted')
+    for front in (0, 1, 2):
+        for prior_slot in (False, True):
+            for length in range(0, 5):
+                if front + (1 if prior_slot else 0) + length + 1 > size:
+                    continue
+                for times in itertools.combinations_with_replacement((0, 1, 2), length):
+                    for agent in (0, 1, 2):
+                        n += 1
+                        R.instance('R9', 'addFreeAgentToCandidatePool~_add_transition_sorted', loc_c)
+                        pool, before = mk_pool(front, [(t, False) for t in times], agent, prior_slot)
+                        try:
+                            AEval(module=cmod, intrinsics=cops).call_function(ins, [], recv=pool)
+                            a = pool.attrs
+                            got_c = [o.oid for o in a['mTransitions'][a['mIndexCandidates']:a['mIndexFree']]]
+                            rest_ok = (sorted(o.oid for o in a['mTransitions']) == sorted(before)
+                                       and [o.oid for o in a['mTransitions'][:a['mIndexCandidates']]] == before[:a['mIndexCandidates']]
+                                       and a['mIndexFree'] == front + (1 if prior_slot else 0) + length + 1 and a['mIndexPrior'] == front)
+                        except Raised as r_:
+                            got_c, rest_ok = ['raise:' + r_.what[:40]], True
+                        lst = [AObj({'transitionTime': t}, oid='c%d' % j, cls='Transition') for j, t in enumerate(times)]
+                        new = AObj({'transitionTime': agent}, oid='new', cls='Transition')
+                        try:
+                            AEval(module=zs, intrinsics=pintr).call_function('_add_transition_sorted', [lst, new])
+                            got_p = [o.oid for o in lst]
+                        except Raised as r_:
+                            got_p = ['raise:' + r_.what[:40]]
+                        if got_c != got_p or not rest_ok:
+                            nbad += 1
+                            if first is None:
+                                first = (times, agent, got_c, got_p, rest_ok)
+    if first is not None:
+        times, agent, got_c, got_p, rest_ok = first
+        if not rest_ok:
+            R.violation('R9', 'addFreeAgentToCandidatePool~_add_transition_sorted', loc_c, 'inserting a candidate with time rank %d into candidates with ranks %s disturbs '
+                        'the other sections of the pool or loses an object (%d of %d pools)' % (agent, list(times), nbad, n))
+        else:
+            R.violation('R9', 'addFreeAgentToCandidatePool~_add_transition_sorted', loc_c, 'candidates with time ranks %s, new candidate with rank %d: C++ orders them %s, '
+                        'Python %s (%d of %d pools differ): the two sides pick different "latest prior" transitions when two rules fire at the same time'
+                        % (list(times), agent, got_c, got_p, nbad, n))
+    # compaction
+    first = None
+    m = 0
+    loc_k = cmod.funcs[comp].loc
+    for front in (0, 1, 2):
+        for prior_slot in (False, True):
+            for length in range(0, 6):
+                if front + (1 if prior_slot else 0) + length > size:
+                    continue
+                for flags in itertools.product((False, True), repeat=length):
+                    m += 1
+                    R.instance('R9', 'addActiveCandidatesToActivePool', loc_k)
+                    pool, before = mk_pool(front, [(j, f_) for j, f_ in enumerate(flags)], None, prior_slot)
+                    AEval(module=cmod, intrinsics=cops).call_function(comp, [], recv=pool)
+                    a = pool.attrs
+                    want = ['act%d' % j for j in range(front)] + ['c%d' % j for j, f_ in enumerate(flags) if f_]
+                    ok = ([o.oid for o in a['mTransitions'][:len(want)]] == want and a['mIndexPrior'] == a['mIndexCandidates'] == a['mIndexFree'] == len(want)
+                          and sorted(o.oid for o in a['mTransitions']) == sorted(before))
+                    if not ok and first is None:
+                        first = (front, prior_slot, flags, [o.oid for o in a['mTransitions'][:front + length + 1]], (a['mIndexPrior'], a['mIndexCandidates'], a['mIndexFree']))
+    if first is not None:
+        front, prior_slot, flags, got, idx = first
+        R.violation('R9', 'addActiveCandidatesToActivePool', loc_k, '%d active transitions%s, candidates with active flags %s: the pool becomes %s with indexes %s; expected the '
+                    'active candidates in their order directly behind the active section, the three indexes behind them and no object lost or duplicated'
+                    % (front, ' + a prior slot' if prior_slot else '', list(flags), got, idx))
+    R.note('pool operations: %d insertions, %d compactions interpreted' % (n, m))
 
 
 def effects_final(eff):
@@ -1122,6 +1257,21 @@ SELFTEST = [
     dict(id='python-default-window-13', file='tools/zonedb/zone_specifier.py', find='            viewing_months: int = 14,', replace='            viewing_months: int = 13,', rule='R3'),
     dict(id='cpp-window-year-spelling-silent', file='src/ace_time/ExtendedZoneProcessor.h',
          find='        (int8_t) (year - LocalDate::kEpochYear - 1), 12 };', replace='        (int8_t) (year - 1 - LocalDate::kEpochYear), 12 };', expect='silent'),
+    dict(id='cpp-insertion-before-equal-times', file='src/ace_time/ExtendedZoneProcessor.h',
+         find='        if (curr->transitionTime >= prev->transitionTime) break;', replace='        if (curr->transitionTime > prev->transitionTime) break;', rule='R9', construct='addFreeAgentToCandidatePool'),
+    dict(id='cpp-insertion-skips-first-candidate', file='src/ace_time/ExtendedZoneProcessor.h',
+         find='      for (uint8_t i = mIndexFree; i > mIndexCandidates; i--) {', replace='      for (uint8_t i = mIndexFree; i > mIndexCandidates + 1; i--) {', rule='R9', construct='addFreeAgentToCandidatePool'),
+    dict(id='python-insertion-before-equal-times', file='tools/zonedb/zone_specifier.py',
+         find='        if _compare_date_tuple(curr.transitionTime, prev.transitionTime) < 0:', replace='        if _compare_date_tuple(curr.transitionTime, prev.transitionTime) <= 0:', rule='R9'),
+    dict(id='cpp-compaction-copies-instead-of-swapping', file='src/ace_time/ExtendedZoneProcessor.h',
+         find='            swap(&mTransitions[iActive], &mTransitions[iCandidate]);', replace='            mTransitions[iActive] = mTransitions[iCandidate];', rule='R9', construct='addActiveCandidatesToActivePool'),
+    dict(id='cpp-compaction-leaves-free-index', file='src/ace_time/ExtendedZoneProcessor.h',
+         find='      mIndexPrior = iActive;\n      mIndexCandidates = iActive;\n      mIndexFree = iActive;', replace='      mIndexPrior = iActive;\n      mIndexCandidates = iActive;', rule='R9', construct='addActiveCandidatesToActivePool'),
+    dict(id='cpp-insertion-loop-as-while-silent', file='src/ace_time/ExtendedZoneProcessor.h',
+         find='      for (uint8_t i = mIndexFree; i > mIndexCandidates; i--) {\n        Transition* curr = mTransitions[i];\n        Transition* prev = mTransitions[i - 1];\n        if (curr->transitionTime >= prev->transitionTime) break;\n        mTransitions[i] = prev;\n        mTransitions[i - 1] = curr;\n      }',
+         replace='      uint8_t i = mIndexFree;\n      while (i > mIndexCandidates && mTransitions[i]->transitionTime < mTransitions[i - 1]->transitionTime) {\n        swap(&mTransitions[i], &mTransitions[i - 1]);\n        i--;\n      }', expect='silent'),
+    dict(id='cpp-compaction-unconditional-swap-silent', file='src/ace_time/ExtendedZoneProcessor.h',
+         find='          if (iActive != iCandidate) {\n            swap(&mTransitions[iActive], &mTransitions[iCandidate]);\n          }', replace='          swap(&mTransitions[iActive], &mTransitions[iCandidate]);', expect='silent'),
     dict(id='cpp-start-ignores-previous-offsets', file='src/ace_time/ExtendedZoneProcessor.h',
          find='            - prev->offsetMinutes - prev->deltaMinutes\n            + t->offsetMinutes + t->deltaMinutes);', replace='            + t->deltaMinutes);', rule='R8'),
     dict(id='python-start-delta-sign', file='tools/zonedb/zone_specifier.py',
